@@ -398,7 +398,41 @@ def run(chk):
     chk.oracle('binomial_score_counts', ocases[:: 5], lambda c: prop_binomial(score, c),
                nontrivial_fn=lambda c: bool(c[2]) and bool(c[3]), key_fn=lambda c: repr(c))
 
+    # call SEQUENCES that share arguments (state leaking between calls: caches keyed on part of the input, argument objects
+    # kept alive, module-level memo tables): each answer against the reference of that call's own arguments
+    scases = [gen_sequence_case(rng) for _ in range(max(120, on // 50))]
+    chk.oracle('call_sequences', scases, lambda c: prop_sequence(pt, score, c), nontrivial_fn=lambda c: True,
+               key_fn=lambda c: json.dumps(c, sort_keys=True))
+    # the same lists through get_matched_indices / match_spectra with tolerance, type and mode toggled, then the first again
+    tcases = []
+    for c in ocases[: max(100, on // 60)]:
+        ints = gen_intens(rng, len(c[3]))
+        tcases.append({'xs': c[2], 'ys': c[3], 'ints': ints, 'calls': [[c[0], c[1]], [rng.choice(['ppm', 'th']), rng.choice([0.0, 0.25, 1.0, 50.0])],
+                                                                     ['th' if c[0] == 'ppm' else 'ppm', c[1]], [c[0], c[1]]],
+                       'ints2': gen_intens(rng, len(c[3]))})
+
+    def prop_toggle(c):
+        for k, (tt, tol) in enumerate(c['calls']):
+            if tt == 'ppm' and tol > 5e5:
+                continue
+            for ints in (c['ints'], c['ints2']):
+                r = prop_window(score, [tt, tol, c['xs'], c['ys']]) or prop_modes(score, [tt, tol, c['xs'], c['ys'], ints])
+                if r is not None:
+                    return f'call group {k + 1} ({tt}, {tol!r}) on the same lists: {r}'
+        return None
+
+    chk.oracle('same_lists_toggled', tcases, prop_toggle, nontrivial_fn=lambda c: bool(c['xs']) and bool(c['ys']),
+               key_fn=lambda c: json.dumps(c, sort_keys=True))
+    # re-issue the earliest calls of this run at its end
+    for name, cs, fn in (('all_mode_vs_bruteforce', ocases[:60], o_window),
+                         ('closest_largest_vs_relation', mcases[:60], lambda c: prop_modes(score, c)),
+                         ('fragment_matches_pairs', fcases[:40], lambda c: prop_fragments(pt, score, c, chk.rng, 'pairs')),
+                         ('fragment_matches_fraction', fcases[:40], lambda c: prop_fragments(pt, score, c, chk.rng, 'fraction')),
+                         ('call_sequences', scases[:40], lambda c: prop_sequence(pt, score, c))):
+        chk.oracle('reissued_' + name, cs, fn, nontrivial_fn=lambda c: True,
+                   key_fn=lambda c: json.dumps(c, sort_keys=True, default=str))
     shrink_failures(chk)
+    shrink_sequence_failures(chk)
     c17_reach.record(chk, reach)
     if tier == 'thorough':
         chk.leanchecker(['PeptVerif.Props.C17', 'PeptVerif.Lemmas.Score', 'PeptVerif.Model.Score', 'PeptVerif.Spec.Score'])
@@ -494,7 +528,13 @@ def prop_fragments(pt, score, c, rng=None, part='pairs'):
     """part = 'pairs' | 'fraction' | 'coverage' (three clauses of the property, reported separately)"""
     frags, mzs, ints = build_frag_case(pt, c)
     c['mz'] = mzs
-    ttype, tol, mode = c['ttype'], c['tol'], c['mode']
+    return eval_frag_call(score, frags, mzs, ints, c['ttype'], c['tol'], c['mode'], len(c['seq']), rng, part)
+
+
+def eval_frag_call(score, frags, mzs, ints, ttype, tol, mode, seqlen, rng=None, part='pairs'):
+    """one call of get_fragment_matches (+ coverage / intensity share of its result) against the brute-force reference
+    computed from this call's own arguments"""
+    c = {'seq': 'X' * seqlen}
     given = list(frags)
     if part == 'pairs':
         ms = score.get_fragment_matches(list(frags), list(mzs), list(ints), tol, ttype, mode)
@@ -574,6 +614,114 @@ def prop_coverage(score, c, given, got, ms):
     return None
 
 
+def gen_sequence_case(rng):
+    """a SEQUENCE of calls that share arguments: same m/z list with other intensities, same fragments against another
+    spectrum, same spectrum with another tolerance / mode, permuted inputs. Every step is explicit (replayable)."""
+    seq = ''.join(rng.choice('ACDEFGHIKLMNPQRSTVWY') for _ in range(rng.randint(2, 7)))
+    base = {'seq': seq, 'ions': rng.sample(['a', 'b', 'c', 'x', 'y', 'z'], rng.randint(1, 2)), 'charges': rng.sample([1, 2], rng.randint(1, 2)),
+            'isotopes': [0], 'ttype': rng.choice(['ppm', 'th']), 'tol': 0.0, 'mode': 'all', 'npeaks': rng.randint(1, 14),
+            'seed': rng.randrange(1 << 30), 'mz': [0.0], 'distinct': rng.random() < 0.7}
+    base['tol'] = rng.choice([0.01, 0.5, 2.0]) if base['ttype'] == 'th' else rng.choice([10.0, 500.0, 5000.0, 2e5])
+    return {'seq': seq, 'ions': base['ions'], 'charges': base['charges'], 'base': base, 'plan': [
+        rng.choice(['new_intensities', 'new_intensities', 'new_spectrum', 'new_tolerance', 'new_mode', 'permute', 'repeat',
+                    'indices_only', 'scaled_intensities'])
+        for _ in range(rng.randint(2, 4))], 'plan_seed': rng.randrange(1 << 30), 'steps': None}
+
+
+def build_sequence(pt, c):
+    """explicit steps [(mzs, ints, ttype, tol, mode, kind)] of a sequence case (stored back into the case)"""
+    import random
+    if c.get('steps'):
+        return c['steps']
+    r = random.Random(c['plan_seed'])
+    _, mzs, ints = build_frag_case(pt, c['base'])
+    ttype, tol, mode = c['base']['ttype'], c['base']['tol'], c['base']['mode']
+    steps = [[list(mzs), list(ints), ttype, tol, mode, 'first']]
+    for kind in c['plan']:
+        mzs, ints, ttype, tol, mode, _ = [list(x) if isinstance(x, list) else x for x in steps[-1]]
+        if kind == 'new_intensities':
+            ints = [float(r.choice([0, 1, 3, 9, 27])) if r.random() < 0.5 else r.uniform(0, 1e4) for _ in mzs]
+        elif kind == 'scaled_intensities':
+            ints = [x * 0.5 + 1.0 for x in reversed(ints)]
+        elif kind == 'new_spectrum':
+            b2 = dict(c['base'], seed=r.randrange(1 << 30), npeaks=r.randint(0, 14))
+            _, mzs, ints = build_frag_case(pt, b2)
+        elif kind == 'new_tolerance':
+            tol = r.choice([0.0, 0.01, 0.5, 2.0, 50.0]) if ttype == 'th' else r.choice([0.0, 10.0, 500.0, 5000.0, 2e5])
+        elif kind == 'new_mode':
+            mode = r.choice([m for m in ('all', 'closest', 'largest') if m != mode])
+        elif kind == 'permute':
+            perm = list(range(len(mzs)))
+            r.shuffle(perm)
+            mzs, ints = [mzs[j] for j in perm], [ints[j] for j in perm]
+        steps.append([mzs, ints, ttype, tol, mode, kind])
+    c['steps'] = steps
+    return steps
+
+
+def prop_sequence(pt, score, c):
+    """every call of the sequence is compared with the reference computed from that call's own arguments"""
+    frags = pt.fragment(c['seq'], c['ions'], c['charges'], isotopes=[0])
+    steps = build_sequence(pt, c)
+    for k, (mzs, ints, ttype, tol, mode, kind) in enumerate(steps):
+        for part in ('pairs', 'fraction', 'coverage'):
+            try:
+                r = eval_frag_call(score, list(frags), list(mzs), list(ints), ttype, tol, mode, len(c['seq']), None, part)
+            except Exception as e:  # noqa
+                r = f'unexpected {type(e).__name__}: {e}'
+            if r is not None:
+                return (f'call {k + 1} of {len(steps)} ({kind}): get_fragment_matches(fragment({c["seq"]!r}, {c["ions"]}, '
+                        f'{c["charges"]}), mz={mzs}, intensity={ints}, {tol!r}, {ttype!r}, {mode!r}) [{part}]: {r}; the earlier '
+                        f'calls of the sequence are in the case (steps)')
+        if kind == 'indices_only' or k % 2 == 1:
+            xs = sorted(f.mz for f in frags)
+            ys_i = sorted(zip(mzs, ints))
+            cc = [ttype, tol, xs, [p[0] for p in ys_i], [p[1] for p in ys_i]]
+            r = prop_window(score, cc[:4]) or prop_modes(score, cc)
+            if r is not None:
+                return f'call {k + 1} of {len(steps)} ({kind}), sorted lists of the same spectrum: {r}'
+    return None
+
+
+def confirm_fresh(obj):
+    """re-evaluate a failing case in a fresh interpreter (no state left over from this run): description or None"""
+    import subprocess
+    import sys
+    code = ('import json,sys; from harness.props import c17; '
+            'print(json.dumps(c17.eval_failure(json.load(sys.stdin))))')
+    try:
+        p = subprocess.run([sys.executable, '-W', 'ignore', '-c', code], input=json.dumps(obj), capture_output=True, text=True,
+                           cwd=core.VERIF, timeout=120)
+        return json.loads(p.stdout.strip().split('\n')[-1])
+    except Exception as e:  # noqa
+        return f'fresh-interpreter replay not available: {type(e).__name__}'
+
+
+def shrink_sequence_failures(chk):
+    """drop steps of a failing call sequence as long as it still fails in a fresh interpreter"""
+    for f in chk.failures:
+        if f['oracle'] != 'call_sequences':
+            continue
+        c = f['case']
+        steps = c.get('steps') or []
+        first = confirm_fresh({'oracle': 'call_sequences', 'case': c})
+        if first is None:
+            f['detail'] += ' [not reproduced in a fresh interpreter: depends on calls made earlier in this run]'
+            continue
+        i = 0
+        tries = 0
+        while i < len(steps) and len(steps) > 1 and tries < 8:
+            cand = dict(c, steps=steps[:i] + steps[i + 1:])
+            tries += 1
+            if confirm_fresh({'oracle': 'call_sequences', 'case': cand}) is not None:
+                steps = cand['steps']
+            else:
+                i += 1
+        c['steps'] = steps
+        f['case'] = c
+        f['detail'] = str(confirm_fresh({'oracle': 'call_sequences', 'case': c}))[:2000] + ' [reproduced in a fresh interpreter]'
+
+
 def prop_binomial(score, c):
     ttype, tol, xs, ys = c[0], c[1], list(c[2]), list(c[3])
     if not ys or not xs or tol <= 0 or max(ys) == min(ys):
@@ -622,6 +770,10 @@ def eval_failure(obj):
             return prop_fragments(pt, score, c, random.Random(0), o[len('fragment_matches_'):])
         if o == 'binomial_score_counts':
             return prop_binomial(score, c)
+        if o == 'call_sequences':
+            return prop_sequence(pt, score, c)
+        if o.startswith('reissued_'):
+            return eval_failure({'oracle': o[len('reissued_'):], 'case': c})
     except Exception as e:  # noqa
         return f'unexpected {type(e).__name__}: {e}'
     return 'unknown oracle ' + str(o)
@@ -689,6 +841,10 @@ def classify(f):
     two nearly equal doubles; its rounding makes the bound non-monotone along the sorted fragments and the shared lower
     pointer runs past a peak. Matched structurally: region, non-monotone float bound present, and the failure disappears
     when the fragments that break monotonicity are removed."""
+    if f['oracle'].startswith('reissued_') and f['oracle'] != 'reissued_call_sequences':
+        return classify(dict(f, oracle=f['oracle'][len('reissued_'):]))
+    if f['oracle'] == 'same_lists_toggled':
+        return None
     if f['oracle'] == 'binomial_score_counts':
         # same root cause: the number of matched fragments is off because get_matched_indices missed a peak
         c = list(f['case'])
